@@ -8,13 +8,6 @@ namespace Xgi.C10
 
 /-! ### bipartite edge list -/
 
-theorem mem_toBipartiteEdgelist (h : Net) (n e : PyId) : (n, e) ∈ toBipartiteEdgelist h ↔ Inc h n e := by
-  unfold toBipartiteEdgelist Inc
-  simp only [List.mem_flatMap, List.mem_map, Prod.mk.injEq]
-  constructor
-  · rintro ⟨p, hp, m, hm, rfl, rfl⟩; exact ⟨p, hp, rfl, hm⟩
-  · rintro ⟨p, hp, rfl, hm⟩; exact ⟨p, hp, n, hm, rfl, rfl⟩
-
 /-- bipartite edge list: the round trip has exactly the source's labelled incidences (labels are carried),
     and is well-formed -/
 theorem bipartiteEdgelist_rt (h : Net) :
@@ -56,13 +49,6 @@ theorem bipartiteEdgelistDi_rt (h : DiNet) :
   simp [dInc_emptyDiNet]
 
 /-! ### two-column dataframe -/
-
-theorem mem_toDataframe (h : Net) (n e : PyId) : (n, e) ∈ toDataframe h ↔ n ∈ h.nodes ∧ Inc h n e := by
-  unfold toDataframe Inc Net.memberships
-  simp only [List.mem_flatMap, List.mem_map, List.mem_filter, Prod.mk.injEq, decide_eq_true_eq]
-  constructor
-  · rintro ⟨m, hm, e', ⟨p, ⟨hp, hmp⟩, rfl⟩, rfl, rfl⟩; exact ⟨hm, p, hp, rfl, hmp⟩
-  · rintro ⟨hn, p, hp, rfl, hnp⟩; exact ⟨n, hn, p.1, ⟨p, ⟨hp, hnp⟩, rfl⟩, rfl, rfl⟩
 
 /-- dataframe: the rows carry both labels; the round trip has exactly the source's incidences -/
 theorem dataframe_rt (h : Net) (hw : h.WF) :
@@ -179,5 +165,571 @@ theorem fromBipartiteGraph_perm (G G' : BGraph) (hw : GWF G) (hv : G.verts.Perm 
       rw [fromBipartiteGraph_inc hr hw, fromBipartiteGraph_inc hr' hw', hN, hE, he n e]
     · intro n
       rw [fromBipartiteGraph_nodes hr hw, fromBipartiteGraph_nodes hr' hw', hN]
+
+/-- bipartite graph with index maps: `from_bipartite_graph(to_bipartite_graph(H))` is accepted and, read through
+    the index maps `itn` / `ite`, has exactly the source's labelled incidences; its nodes are the source's nodes
+    (isolated ones included) -/
+theorem bipartiteGraph_rt (h : Net) (hw : h.WF) :
+    ∃ r, fromBipartiteGraph (toBipartiteGraph h).G = .ok r ∧
+      (∀ x y, Inc r x y ↔ ∃ n e, (x, n) ∈ (toBipartiteGraph h).itn ∧ (y, e) ∈ (toBipartiteGraph h).ite ∧ Inc h n e) ∧
+      (∀ x, x ∈ r.nodes ↔ ∃ n, (x, n) ∈ (toBipartiteGraph h).itn) := by
+  obtain ⟨r, hr⟩ := (fromBipartiteGraph_ok_iff _).mpr (ok_toBG h)
+  refine ⟨r, hr, fun x y => ?_, fun x => ?_⟩
+  · rw [fromBipartiteGraph_inc hr (gwf_toBG h), mem_nodeVerts_toBG, mem_edgeVerts_toBG]
+    simp only [mem_itn_toBG, mem_ite_toBG, mem_edges_toBG]
+    constructor
+    · rintro ⟨⟨i, v, hv, rfl⟩, ⟨j, p, hp, rfl⟩, (⟨i', v', j', p', hv', hp', hm, hx, hy⟩ | ⟨i', v', j', p', hv', hp', hm, hx, hy⟩)⟩
+      · have h1 := int_inj _ _ hx
+        have h2 := int_inj _ _ hy
+        have h3 : j = j' := by omega
+        subst h1 h3
+        rw [hv] at hv'; rw [hp] at hp'
+        simp only [Option.some.injEq] at hv' hp'
+        subst hv' hp'
+        exact ⟨v, p.1, ⟨i, hv, rfl⟩, ⟨j, p, hp, rfl, rfl⟩, p, List.mem_of_getElem? hp, rfl, hm⟩
+      · have h1 := int_inj _ _ hy
+        have := getElem?_lt hv
+        omega
+    · rintro ⟨n, e, ⟨i, hv, rfl⟩, ⟨j, p, hp, rfl, rfl⟩, q, hq, hqe, hn⟩
+      have : q = p := eq_of_key_eq hw.2.1 hq (List.mem_of_getElem? hp) hqe
+      subst this
+      exact ⟨⟨i, n, hv, rfl⟩, ⟨j, q, hp, rfl⟩, Or.inl ⟨i, n, j, q, hv, hp, hn, rfl, rfl⟩⟩
+  · rw [fromBipartiteGraph_nodes hr (gwf_toBG h), mem_nodeVerts_toBG]
+    simp only [mem_itn_toBG]
+    constructor
+    · rintro ⟨i, v, hv, rfl⟩; exact ⟨v, i, hv, rfl⟩
+    · rintro ⟨v, i, hv, rfl⟩; exact ⟨i, v, hv, rfl⟩
+
+/-- directed bipartite graph (arcs node → edge for tail members, edge → node for head members): accepted, and
+    through the index maps it has exactly the source's incidences with their direction -/
+theorem bipartiteGraphDi_rt (h : DiNet) (hw : DWF h) :
+    ∃ r, fromBipartiteGraphDi (toBipartiteGraphDi h).G = .ok r ∧
+      (∀ x y d, DInc r x y d ↔ ∃ n e, (x, n) ∈ (toBipartiteGraphDi h).itn ∧ (y, e) ∈ (toBipartiteGraphDi h).ite ∧ DInc h n e d) := by
+  obtain ⟨r, hr⟩ := (fromBipartiteGraphDi_ok_iff _).mpr (ok_toBGDi h)
+  refine ⟨r, hr, fun x y d => ?_⟩
+  rw [fromBipartiteGraphDi_inc hr (gwf_toBGDi h), mem_nodeVerts_toBGDi, mem_edgeVerts_toBGDi]
+  simp only [mem_itn_toBGDi, mem_ite_toBGDi, dInc_iff]
+  constructor
+  · rintro ⟨⟨i, v, hv, rfl⟩, ⟨j, p, hp, rfl⟩, hE⟩
+    refine ⟨v, p.1, ⟨i, hv, rfl⟩, ⟨j, p, hp, rfl, rfl⟩, p, List.mem_of_getElem? hp, rfl, ?_⟩
+    cases d
+    · simp only [mem_edges_toBGDi] at hE
+      rcases hE with ⟨i', v', j', p', hv', hp', hm, hx, hy⟩ | ⟨i', v', j', p', hv', hp', hm, hx, hy⟩
+      · have h1 := int_inj _ _ hx
+        have h2 := int_inj _ _ hy
+        have h3 : j = j' := by omega
+        subst h1 h3
+        rw [hv] at hv'; rw [hp] at hp'
+        simp only [Option.some.injEq] at hv' hp'
+        subst hv' hp'
+        exact hm
+      · have h1 := int_inj _ _ hx
+        have := getElem?_lt hv'
+        omega
+    · simp only [mem_edges_toBGDi] at hE
+      rcases hE with ⟨i', v', j', p', hv', hp', hm, hx, hy⟩ | ⟨i', v', j', p', hv', hp', hm, hx, hy⟩
+      · have h1 := int_inj _ _ hy
+        have := getElem?_lt hv
+        omega
+      · have h1 := int_inj _ _ hx
+        have h2 := int_inj _ _ hy
+        have h3 : j = j' := by omega
+        subst h1 h3
+        rw [hv] at hv'; rw [hp] at hp'
+        simp only [Option.some.injEq] at hv' hp'
+        subst hv' hp'
+        exact hm
+  · rintro ⟨n, e, ⟨i, hv, rfl⟩, ⟨j, p, hp, rfl, rfl⟩, q, hq, hqe, hn⟩
+    have : q = p := eq_of_key_eq_di hw.2.1 hq (List.mem_of_getElem? hp) hqe
+    subst this
+    refine ⟨⟨i, n, hv, rfl⟩, ⟨j, q, hp, rfl⟩, ?_⟩
+    cases d
+    · simp only [mem_edges_toBGDi]
+      exact Or.inl ⟨i, n, j, q, hv, hp, hn, rfl, rfl⟩
+    · simp only [mem_edges_toBGDi]
+      exact Or.inr ⟨i, n, j, q, hv, hp, hn, rfl, rfl⟩
+
+/-! ### the standard hypergraph dict -/
+
+/-- hypergraph dict: when the string casts can be undone (`uncast (cast x) = x` on the IDs — e.g. `int` on
+    all-int IDs, the identity on all-string IDs) and every member set can be sorted, the round trip succeeds and
+    keeps the node list (isolated nodes, order), the edge IDs (empty edges, order), the labelled incidences and
+    all three levels of attributes -/
+theorem hypergraphDict_rt (cast : PyId → String) (un ue : String → Except Err PyId) (a : ANet) (hw : AWF a)
+    (hun : ∀ x ∈ a.net.nodes, un (cast x) = .ok x) (hue : ∀ e ∈ a.net.edgeIds, ue (cast e) = .ok e)
+    (hs : ∀ p ∈ a.net.edges, (sortIds p.2).isSome) :
+    ∃ d r, toHypergraphDict cast a = .ok d ∧ fromHypergraphDict un ue d = .ok r ∧
+      r.net.nodes = a.net.nodes ∧ r.net.edgeIds = a.net.edgeIds ∧
+      (∀ n e, Inc r.net n e ↔ Inc a.net n e) ∧
+      r.gattr = a.gattr ∧ (∀ n ∈ a.net.nodes, r.nattr n = a.nattr n) ∧ (∀ e ∈ a.net.edgeIds, r.eattr e = a.eattr e) := by
+  obtain ⟨⟨w1, w2, w3⟩, wg, wn, we⟩ := hw
+  -- the sorted member lists
+  let sorted : PyId × List PyId → List PyId := fun p => (sortIds p.2).getD p.2
+  have hsorted : ∀ p ∈ a.net.edges, sortIds p.2 = some (sorted p) := by
+    intro p hp
+    have := hs p hp
+    cases h : sortIds p.2 with
+    | none => simp [h] at this
+    | some l => simp [sorted, h]
+  have hperm : ∀ p ∈ a.net.edges, (sorted p).Perm p.2 := fun p hp => sortIds_perm (hsorted p hp)
+  -- to_hypergraph_dict succeeds
+  have hd : toHypergraphDict cast a = .ok
+      { gattr := Attrs.update [] a.gattr,
+        nodeData := a.net.nodes.map (fun n => (cast n, a.nattr n)),
+        edgeData := a.net.edgeIds.map (fun e => (cast e, a.eattr e)),
+        edgeDict := a.net.edges.map (fun p => (cast p.1, (sorted p).map cast)) } := by
+    unfold toHypergraphDict
+    have h1 : (a.net.nodes.map cast).Nodup := nodup_map_of_leftInv cast un hun w1
+    have h2 : (a.net.edgeIds.map cast).Nodup := nodup_map_of_leftInv cast ue hue w2
+    simp only [h1, h2, not_true_eq_false, if_false]
+    rw [mapO_eq _ (fun p => (cast p.1, (sorted p).map cast)) _ (fun p hp => by simp [hsorted p hp])]
+  refine ⟨_, buildHD (Attrs.update [] a.gattr) (a.net.nodes.map (fun n => (n, a.nattr n)))
+    (a.net.edges.map (fun p => (p.1, sorted p))) (a.net.edgeIds.map (fun e => (e, a.eattr e))), hd, ?_⟩
+  -- from_hypergraph_dict: the casts are undone
+  have e1 : mapE (fun (p : String × Attrs) => (un p.1).map (fun n => (n, p.2)))
+      (a.net.nodes.map (fun n => (cast n, a.nattr n))) = .ok (a.net.nodes.map (fun n => (n, a.nattr n))) :=
+    mapE_map_eq _ _ _ _ (fun x hx => by simp [hun x hx, Except.map])
+  have e3 : mapE (fun (p : String × Attrs) => (ue p.1).map (fun e => (e, p.2)))
+      (a.net.edgeIds.map (fun e => (cast e, a.eattr e))) = .ok (a.net.edgeIds.map (fun e => (e, a.eattr e))) :=
+    mapE_map_eq _ _ _ _ (fun x hx => by simp [hue x hx, Except.map])
+  have e2 : mapE (uncastEdge un ue)
+      (a.net.edges.map (fun p => (cast p.1, (sorted p).map cast))) = .ok (a.net.edges.map (fun p => (p.1, sorted p))) := by
+    apply mapE_map_eq
+    intro p hp
+    have hpe : p.1 ∈ a.net.edgeIds := by unfold Net.edgeIds; rw [List.mem_map]; exact ⟨p, hp, rfl⟩
+    have hm : mapE un ((sorted p).map cast) = .ok ((sorted p).map id) :=
+      mapE_map_eq _ _ _ _ (fun x hx => hun x ((w3 p hp).2 x ((hperm p hp).mem_iff.mp hx)))
+    simp only [uncastEdge, hue _ hpe, hm, List.map_id]
+  refine ⟨?_, ?_⟩
+  · unfold fromHypergraphDict
+    simp only [e1, e2, e3]
+  · -- the construction
+    unfold buildHD
+    simp only [List.foldl_map]
+    have g0 : Attrs.update [] (Attrs.update [] a.gattr) = a.gattr := by
+      rw [attrs_update_nil wg, attrs_update_nil wg]
+    generalize ha0 : ({ emptyANet .hg with gattr := Attrs.update [] (Attrs.update [] a.gattr) } : ANet) = a0
+    have a0n : a0.net.nodes = [] := by rw [← ha0]; rfl
+    have a0e : a0.net.edges = [] := by rw [← ha0]; rfl
+    have a0ea : a0.eattr = fun _ => [] := by rw [← ha0]; rfl
+    have a0g : a0.gattr = a.gattr := by rw [← ha0]; exact g0
+    obtain ⟨n1, n2, n3, n4, _, n6, _⟩ := nodeFold_spec a.net.nodes a.nattr a0 (by rw [a0n]; simpa using w1)
+    generalize (a.net.nodes.foldl (fun a_1 n => aAddNode a_1 n (a.nattr n)) a0) = a1 at n1 n2 n3 n4 n6 ⊢
+    rw [a0n, List.nil_append] at n1
+    rw [a0e] at n2
+    obtain ⟨m1, m2, m3, m4, _, m6, _⟩ := edgeFold_spec a.net.edges (·.1) sorted (fun _ => []) a1
+      (by simp only [Net.edgeIds, n2, List.map_nil, List.nil_append]; exact w2)
+      (fun p hp x hx => by rw [n1]; exact (w3 p hp).2 x ((hperm p hp).mem_iff.mp hx))
+    generalize (a.net.edges.foldl (fun a_1 p => aAddEdge a_1 p.1 (sorted p) []) a1) = a2 at m1 m2 m3 m4 m6 ⊢
+    rw [n2, List.nil_append] at m2
+    have a2ids : a2.net.edgeIds = a.net.edgeIds := by
+      unfold Net.edgeIds; rw [m2, List.map_map]; rfl
+    obtain ⟨s1, s2, s3, _, s5, _⟩ := setEdgeAttrFold_spec a.net.edgeIds a.eattr a2 w2 (fun e he => by rw [a2ids]; exact he)
+    generalize (a.net.edgeIds.foldl (fun a_1 e => aSetEdgeAttr a_1 e (a.eattr e)) a2) = a3 at s1 s2 s3 s5 ⊢
+    refine ⟨by rw [s1, m1, n1], by rw [s1, a2ids], ?_, by rw [s3, m4, n4, a0g], ?_, ?_⟩
+    · intro n e
+      unfold Inc
+      rw [s1, m2]
+      simp only [List.mem_map]
+      constructor
+      · rintro ⟨q, ⟨p, hp, rfl⟩, h1, h2⟩
+        exact ⟨p, hp, h1, (hperm p hp).mem_iff.mp (mem_dedup.mp h2)⟩
+      · rintro ⟨p, hp, h1, h2⟩
+        exact ⟨_, ⟨p, hp, rfl⟩, h1, mem_dedup.mpr ((hperm p hp).mem_iff.mpr h2)⟩
+    · intro n hn
+      rw [s2, m3, n6 n hn, attrs_update_nil (wn n hn)]
+    · intro e he
+      rw [s5 e he]
+      have : a2.eattr e = [] := by
+        unfold Net.edgeIds at he
+        rw [List.mem_map] at he
+        obtain ⟨p, hp, rfl⟩ := he
+        rw [m6 p hp]; rfl
+      rw [this, attrs_update_nil (we e he)]
+
+
+/-- colliding string casts are refused with the library's error (`XGIError`) -/
+theorem hypergraphDict_collision (cast : PyId → String) (a : ANet)
+    (h : ¬ (a.net.nodes.map cast).Nodup ∨ ¬ (a.net.edgeIds.map cast).Nodup) :
+    toHypergraphDict cast a = .error .lib := by
+  unfold toHypergraphDict
+  by_cases h1 : (a.net.nodes.map cast).Nodup
+  · rcases h with h | h
+    · exact absurd h1 h
+    · simp [h1, h]
+  · simp [h1]
+
+/-! ### HIF dict -/
+
+/-- HIF (undirected part of `from_hif_dict`): the round trip keeps the node set (isolated nodes), the edge-ID set
+    (empty edges), the labelled incidences and the node, edge and network attributes; records are written only
+    for isolated / attributed nodes and empty / attributed edges, and that is enough -/
+theorem hif_rt (a : ANet) (hw : AWF a) :
+    (∀ n, n ∈ (fromHifU (toHif a)).net.nodes ↔ n ∈ a.net.nodes) ∧
+    (∀ e, e ∈ (fromHifU (toHif a)).net.edgeIds ↔ e ∈ a.net.edgeIds) ∧
+    (∀ n e, Inc (fromHifU (toHif a)).net n e ↔ Inc a.net n e) ∧
+    (fromHifU (toHif a)).gattr = a.gattr ∧
+    (∀ n ∈ a.net.nodes, (fromHifU (toHif a)).nattr n = a.nattr n) ∧
+    (∀ e ∈ a.net.edgeIds, (fromHifU (toHif a)).eattr e = a.eattr e) ∧
+    (fromHifU (toHif a)).net.WF ∧ (fromHifU (toHif a)).cls = .hg := by
+  obtain ⟨⟨w1, w2, w3⟩, wg, wn, we⟩ := hw
+  have hform : fromHifU (toHif a) =
+      List.foldl (edgeRecStep a.eattr)
+        (List.foldl (fun a_1 n => aAddNode a_1 n (a.nattr n))
+          ({ cls := .hg, net := linkAll (toBipartiteEdgelist a.net) emptyNet, nattr := fun _ => [], eattr := fun _ => [],
+             gattr := Attrs.update [] (Attrs.update [] a.gattr) } : ANet)
+          (a.net.nodes.filter (fun n => isolated a.net n || a.nattr n ≠ [])))
+        ((a.net.edges.filter (fun p => p.2 = [] || a.eattr p.1 ≠ [])).map (·.1)) := by
+    unfold fromHifU toHif
+    simp only [List.foldl_map, hifNodeStep_eq, recOf_getD]
+    rw [aLinkFold_eq]
+    rfl
+  rw [hform]
+  obtain ⟨a1, ha1⟩ : ∃ a1 : ANet, ({ cls := .hg, net := linkAll (toBipartiteEdgelist a.net) emptyNet, nattr := fun _ => [], eattr := fun _ => [], gattr := Attrs.update [] (Attrs.update [] a.gattr) } : ANet) = a1 := ⟨_, rfl⟩
+  rw [ha1]
+  have a1net : a1.net = linkAll (toBipartiteEdgelist a.net) emptyNet := by rw [← ha1]
+  have a1n : a1.nattr = fun _ => [] := by rw [← ha1]
+  have a1e : a1.eattr = fun _ => [] := by rw [← ha1]
+  have a1g : a1.gattr = a.gattr := by rw [← ha1]; show Attrs.update [] (Attrs.update [] a.gattr) = _; rw [attrs_update_nil wg, attrs_update_nil wg]
+  have a1c : a1.cls = .hg := by rw [← ha1]
+  have a1inc : ∀ n e, Inc a1.net n e ↔ Inc a.net n e := by
+    intro n e; rw [a1net]; exact (bipartiteEdgelist_rt a.net).1 n e
+  have a1wf : a1.net.WF := by rw [a1net]; exact wf_linkAll _ wf_emptyNet
+  have a1nodes : ∀ n, n ∈ a1.net.nodes ↔ n ∈ a.net.nodes ∧ ∃ e, Inc a.net n e := by
+    intro n; rw [a1net]; exact (bipartiteEdgelist_labels a.net ⟨w1, w2, w3⟩).1 n
+  have a1ids : ∀ e, e ∈ a1.net.edgeIds ↔ e ∈ a.net.edgeIds ∧ ∃ n, Inc a.net n e := by
+    intro e; rw [a1net]; exact (bipartiteEdgelist_labels a.net ⟨w1, w2, w3⟩).2 e
+  -- node records
+  obtain ⟨n1, n2, n3, n4, n5, n6, n7, n8⟩ := nodeRecFold_spec
+    (a.net.nodes.filter (fun n => isolated a.net n || a.nattr n ≠ [])) a.nattr a1
+    (List.Nodup.sublist List.filter_sublist w1) (fun n _ => by rw [a1n])
+  generalize (List.foldl (fun a_1 n => aAddNode a_1 n (a.nattr n)) a1
+      (a.net.nodes.filter (fun n => isolated a.net n || a.nattr n ≠ []))) = a2 at n1 n2 n3 n4 n5 n6 n7 n8 ⊢
+  -- edge records
+  have hkeys : ((a.net.edges.filter (fun p => p.2 = [] || a.eattr p.1 ≠ [])).map (·.1)).Nodup :=
+    List.Nodup.sublist (List.Sublist.map _ List.filter_sublist) w2
+  obtain ⟨e1, e2, e3, e4, e5, e6, e7, e8, e9⟩ := edgeRecFold_spec
+    ((a.net.edges.filter (fun p => p.2 = [] || a.eattr p.1 ≠ [])).map (·.1)) a.eattr a2 hkeys
+    (fun e _ => by rw [n3, a1e])
+  generalize (List.foldl (edgeRecStep a.eattr) a2
+      ((a.net.edges.filter (fun p => p.2 = [] || a.eattr p.1 ≠ [])).map (·.1))) = a3 at e1 e2 e3 e4 e5 e6 e7 e8 e9 ⊢
+  have a2wf : a2.net.WF := by
+    obtain ⟨x1, x2, x3⟩ := a1wf
+    refine ⟨n8 x1, by unfold Net.edgeIds at *; rw [n2]; exact x2, fun p hp => ?_⟩
+    rw [n2] at hp
+    exact ⟨(x3 p hp).1, fun m hm => (n1 m).mpr (Or.inl ((x3 p hp).2 m hm))⟩
+  have hfiltE : ∀ e, e ∈ (a.net.edges.filter (fun p => p.2 = [] || a.eattr p.1 ≠ [])).map (·.1) ↔
+      ∃ p ∈ a.net.edges, p.1 = e ∧ (p.2 = [] ∨ a.eattr p.1 ≠ []) := by
+    intro e; simp only [List.mem_map, List.mem_filter, Bool.or_eq_true, decide_eq_true_eq, ne_eq, and_assoc]
+    constructor
+    · rintro ⟨p, hp, h, rfl⟩; exact ⟨p, hp, rfl, h⟩
+    · rintro ⟨p, hp, rfl, h⟩; exact ⟨p, hp, h, rfl⟩
+  refine ⟨?_, ?_, ?_, by rw [e5, n4, a1g], ?_, ?_, e9 a2wf, by rw [e6, n5, a1c]⟩
+  · intro n
+    rw [e2, n1 n, a1nodes n]
+    simp only [List.mem_filter, Bool.or_eq_true, decide_eq_true_eq, isolated_iff]
+    constructor
+    · rintro (h | h); exact h.1; exact h.1
+    · intro hn
+      by_cases hi : ∃ e, Inc a.net n e
+      · exact Or.inl ⟨hn, hi⟩
+      · exact Or.inr ⟨hn, Or.inl hi⟩
+  · intro e
+    rw [e1 e]
+    have : a2.net.edgeIds = a1.net.edgeIds := by unfold Net.edgeIds; rw [n2]
+    rw [this, a1ids e, hfiltE e]
+    constructor
+    · rintro (h | ⟨p, hp, rfl, _⟩)
+      · exact h.1
+      · unfold Net.edgeIds; rw [List.mem_map]; exact ⟨p, hp, rfl⟩
+    · intro he
+      unfold Net.edgeIds at he; rw [List.mem_map] at he
+      obtain ⟨p, hp, rfl⟩ := he
+      by_cases hpe : p.2 = []
+      · exact Or.inr ⟨p, hp, rfl, Or.inl hpe⟩
+      · left
+        refine ⟨by unfold Net.edgeIds; rw [List.mem_map]; exact ⟨p, hp, rfl⟩, ?_⟩
+        cases hm : p.2 with
+        | nil => exact absurd hm hpe
+        | cons x t => exact ⟨x, p, hp, rfl, by rw [hm]; simp⟩
+  · intro n e
+    rw [e3 n e]
+    have : Inc a2.net n e ↔ Inc a1.net n e := by unfold Inc; rw [n2]
+    rw [this, a1inc]
+  · intro n hn
+    rw [e4]
+    by_cases hf : n ∈ a.net.nodes.filter (fun n => isolated a.net n || a.nattr n ≠ [])
+    · rw [n6 n hf, attrs_update_nil (wn n hn)]
+    · rw [n7 n hf, a1n]
+      simp only [List.mem_filter, Bool.or_eq_true, decide_eq_true_eq, not_and, not_or] at hf
+      have := (hf hn).2
+      simp only [ne_eq, Decidable.not_not] at this
+      exact this.symm
+  · intro e he
+    by_cases hf : e ∈ (a.net.edges.filter (fun p => p.2 = [] || a.eattr p.1 ≠ [])).map (·.1)
+    · rw [e7 e hf, attrs_update_nil (we e he)]
+    · rw [e8 e hf, n3, a1e]
+      rw [hfiltE] at hf
+      unfold Net.edgeIds at he; rw [List.mem_map] at he
+      obtain ⟨p, hp, rfl⟩ := he
+      by_cases h : a.eattr p.1 = []
+      · exact h.symm
+      · exact absurd ⟨p, hp, rfl, Or.inr h⟩ hf
+
+
+/-- HIF for a directed network (records carry `direction`): the round trip keeps the node set, the edge-ID set
+    (empty edges), the incidences with their direction and all attributes -/
+theorem hifDi_rt (a : ADiNet) (hw : ADWF a) :
+    (∀ n, n ∈ (fromHifD (toHifDi a)).net.nodes ↔ n ∈ a.net.nodes) ∧
+    (∀ e, e ∈ dEdgeIds (fromHifD (toHifDi a)).net ↔ e ∈ dEdgeIds a.net) ∧
+    (∀ n e d, DInc (fromHifD (toHifDi a)).net n e d ↔ DInc a.net n e d) ∧
+    (fromHifD (toHifDi a)).gattr = a.gattr ∧
+    (∀ n ∈ a.net.nodes, (fromHifD (toHifDi a)).nattr n = a.nattr n) ∧
+    (∀ e ∈ dEdgeIds a.net, (fromHifD (toHifDi a)).eattr e = a.eattr e) ∧
+    DWF (fromHifD (toHifDi a)).net := by
+  obtain ⟨⟨w1, w2, w3⟩, wg, wn, we⟩ := hw
+  have hform : fromHifD (toHifDi a) =
+      List.foldl (dEdgeRecStep a.eattr)
+        (List.foldl (fun a_1 n => dAAddNode a_1 n (a.nattr n))
+          ({ net := dLinkAll (toBipartiteEdgelistDi a.net) emptyDiNet, nattr := fun _ => [], eattr := fun _ => [],
+             gattr := Attrs.update [] (Attrs.update [] a.gattr) } : ADiNet)
+          (a.net.nodes.filter (fun n => dIsolated a.net n || a.nattr n ≠ [])))
+        ((a.net.edges.filter (fun p => (p.2.1 = [] && p.2.2 = []) || a.eattr p.1 ≠ [])).map (·.1)) := by
+    unfold fromHifD toHifDi
+    simp only [List.foldl_map, hifDNodeStep_eq, recOf_getD, Option.getD_some]
+    rw [dLinkFold_eq]
+    rfl
+  rw [hform]
+  obtain ⟨a1, ha1⟩ : ∃ a1 : ADiNet, ({ net := dLinkAll (toBipartiteEdgelistDi a.net) emptyDiNet, nattr := fun _ => [], eattr := fun _ => [], gattr := Attrs.update [] (Attrs.update [] a.gattr) } : ADiNet) = a1 := ⟨_, rfl⟩
+  rw [ha1]
+  have a1net : a1.net = dLinkAll (toBipartiteEdgelistDi a.net) emptyDiNet := by rw [← ha1]
+  have a1n : a1.nattr = fun _ => [] := by rw [← ha1]
+  have a1e : a1.eattr = fun _ => [] := by rw [← ha1]
+  have a1g : a1.gattr = a.gattr := by rw [← ha1]; show Attrs.update [] (Attrs.update [] a.gattr) = _; rw [attrs_update_nil wg, attrs_update_nil wg]
+  have a1inc : ∀ n e d, DInc a1.net n e d ↔ DInc a.net n e d := by
+    intro n e d; rw [a1net]; exact (bipartiteEdgelistDi_rt a.net).1 n e d
+  have a1wf : DWF a1.net := by rw [a1net]; exact dwf_dLinkAll _ dwf_emptyDiNet
+  have a1nodes : ∀ n, n ∈ a1.net.nodes ↔ n ∈ a.net.nodes ∧ ∃ e d, DInc a.net n e d := by
+    intro n; rw [a1net]; exact (bipartiteEdgelistDi_labels a.net ⟨w1, w2, w3⟩).1 n
+  have a1ids : ∀ e, e ∈ dEdgeIds a1.net ↔ e ∈ dEdgeIds a.net ∧ ∃ n d, DInc a.net n e d := by
+    intro e; rw [a1net]; exact (bipartiteEdgelistDi_labels a.net ⟨w1, w2, w3⟩).2 e
+  obtain ⟨n1, n2, n3, n4, n6, n7, n8⟩ := dNodeRecFold_spec
+    (a.net.nodes.filter (fun n => dIsolated a.net n || a.nattr n ≠ [])) a.nattr a1
+    (List.Nodup.sublist List.filter_sublist w1) (fun n _ => by rw [a1n])
+  generalize (List.foldl (fun a_1 n => dAAddNode a_1 n (a.nattr n)) a1
+      (a.net.nodes.filter (fun n => dIsolated a.net n || a.nattr n ≠ []))) = a2 at n1 n2 n3 n4 n6 n7 n8 ⊢
+  have hkeys : ((a.net.edges.filter (fun p => (p.2.1 = [] && p.2.2 = []) || a.eattr p.1 ≠ [])).map (·.1)).Nodup :=
+    List.Nodup.sublist (List.Sublist.map _ List.filter_sublist) w2
+  obtain ⟨e1, e2, e3, e4, e5, e7, e8, e9⟩ := dEdgeRecFold_spec
+    ((a.net.edges.filter (fun p => (p.2.1 = [] && p.2.2 = []) || a.eattr p.1 ≠ [])).map (·.1)) a.eattr a2 hkeys
+    (fun e _ => by rw [n3, a1e])
+  generalize (List.foldl (dEdgeRecStep a.eattr) a2
+      ((a.net.edges.filter (fun p => (p.2.1 = [] && p.2.2 = []) || a.eattr p.1 ≠ [])).map (·.1))) = a3 at e1 e2 e3 e4 e5 e7 e8 e9 ⊢
+  have a2wf : DWF a2.net := by
+    obtain ⟨x1, x2, x3⟩ := a1wf
+    refine ⟨n8 x1, by rw [n2]; exact x2, fun p hp => ?_⟩
+    rw [n2] at hp
+    obtain ⟨y1, y2, y3, y4⟩ := x3 p hp
+    exact ⟨y1, y2, fun m hm => (n1 m).mpr (Or.inl (y3 m hm)), fun m hm => (n1 m).mpr (Or.inl (y4 m hm))⟩
+  have hfiltE : ∀ e, e ∈ (a.net.edges.filter (fun p => (p.2.1 = [] && p.2.2 = []) || a.eattr p.1 ≠ [])).map (·.1) ↔
+      ∃ p ∈ a.net.edges, p.1 = e ∧ ((p.2.1 = [] ∧ p.2.2 = []) ∨ a.eattr p.1 ≠ []) := by
+    intro e; simp only [List.mem_map, List.mem_filter, Bool.or_eq_true, Bool.and_eq_true, decide_eq_true_eq, ne_eq, and_assoc]
+    constructor
+    · rintro ⟨p, hp, h, rfl⟩; exact ⟨p, hp, rfl, h⟩
+    · rintro ⟨p, hp, rfl, h⟩; exact ⟨p, hp, h, rfl⟩
+  refine ⟨?_, ?_, ?_, by rw [e5, n4, a1g], ?_, ?_, e9 a2wf⟩
+  · intro n
+    rw [e2, n1 n, a1nodes n]
+    simp only [List.mem_filter, Bool.or_eq_true, decide_eq_true_eq, dIsolated_iff]
+    constructor
+    · rintro (h | h); exact h.1; exact h.1
+    · intro hn
+      by_cases hi : ∃ e d, DInc a.net n e d
+      · exact Or.inl ⟨hn, hi⟩
+      · exact Or.inr ⟨hn, Or.inl hi⟩
+  · intro e
+    rw [e1 e]
+    have : dEdgeIds a2.net = dEdgeIds a1.net := by unfold dEdgeIds; rw [n2]
+    rw [this, a1ids e, hfiltE e]
+    constructor
+    · rintro (h | ⟨p, hp, rfl, _⟩)
+      · exact h.1
+      · unfold dEdgeIds; rw [List.mem_map]; exact ⟨p, hp, rfl⟩
+    · intro he
+      unfold dEdgeIds at he; rw [List.mem_map] at he
+      obtain ⟨p, hp, rfl⟩ := he
+      by_cases hpe : p.2.1 = [] ∧ p.2.2 = []
+      · exact Or.inr ⟨p, hp, rfl, Or.inl hpe⟩
+      · left
+        refine ⟨by unfold dEdgeIds; rw [List.mem_map]; exact ⟨p, hp, rfl⟩, ?_⟩
+        cases hm : p.2.1 with
+        | cons x t => exact ⟨x, .tail, (dInc_iff _ _ _ _).mpr ⟨p, hp, rfl, by simp [side, hm]⟩⟩
+        | nil =>
+          cases hm2 : p.2.2 with
+          | nil => exact absurd ⟨hm, hm2⟩ hpe
+          | cons x t => exact ⟨x, .head, (dInc_iff _ _ _ _).mpr ⟨p, hp, rfl, by simp [side, hm2]⟩⟩
+  · intro n e d
+    rw [e3 n e d]
+    have : DInc a2.net n e d ↔ DInc a1.net n e d := by unfold DInc; rw [n2]
+    rw [this, a1inc]
+  · intro n hn
+    rw [e4]
+    by_cases hf : n ∈ a.net.nodes.filter (fun n => dIsolated a.net n || a.nattr n ≠ [])
+    · rw [n6 n hf, attrs_update_nil (wn n hn)]
+    · rw [n7 n hf, a1n]
+      simp only [List.mem_filter, Bool.or_eq_true, decide_eq_true_eq, not_and, not_or] at hf
+      have := (hf hn).2
+      simp only [ne_eq, Decidable.not_not] at this
+      exact this.symm
+  · intro e he
+    by_cases hf : e ∈ (a.net.edges.filter (fun p => (p.2.1 = [] && p.2.2 = []) || a.eattr p.1 ≠ [])).map (·.1)
+    · rw [e7 e hf, attrs_update_nil (we e he)]
+    · rw [e8 e hf, n3, a1e]
+      rw [hfiltE] at hf
+      unfold dEdgeIds at he; rw [List.mem_map] at he
+      obtain ⟨p, hp, rfl⟩ := he
+      by_cases h : a.eattr p.1 = []
+      · exact h.symm
+      · exact absurd ⟨p, hp, rfl, Or.inr h⟩ hf
+
+/-- HIF keeps the network class: a Hypergraph comes back as a Hypergraph, a SimplicialComplex as a
+    SimplicialComplex (through `SimplicialComplex(H)`), a DiHypergraph as a DiHypergraph -/
+theorem hif_class :
+    (∀ a : ANet, a.cls ≠ .dhg → ∃ r, fromHif (toHif a) = .inl r ∧ r.cls = a.cls) ∧
+    (∀ a : ADiNet, ∃ r, fromHif (toHifDi a) = .inr r) := by
+  constructor
+  · intro a ha
+    cases hc : a.cls with
+    | dhg => exact absurd hc ha
+    | hg =>
+      refine ⟨fromHifU (toHif a), ?_, ?_⟩
+      · unfold fromHif; simp [toHif, hc]
+      · exact cls_fromHifU _
+    | sc =>
+      refine ⟨toSimplicialComplex (fromHifU (toHif a)), ?_, cls_toSimplicialComplex _⟩
+      unfold fromHif; simp [toHif, hc]
+  · intro a
+    exact ⟨fromHifD (toHifDi a), by unfold fromHif; simp [toHifDi]⟩
+
+/-! ### class-to-class constructors -/
+
+/-- `Hypergraph(N)` for a Hypergraph / SimplicialComplex `N`: same node list, same `(ID, members)` list, same
+    node, edge and network attributes -/
+theorem ofClass_members_hg (a : ANet) (hw : AWF a) :
+    ∃ r, ofClass (.inl a) .hg = .ok (.inl r) ∧ r.cls = .hg ∧ r.net = a.net ∧ r.gattr = a.gattr ∧
+      (∀ n ∈ a.net.nodes, r.nattr n = a.nattr n) ∧ (∀ e ∈ a.net.edgeIds, r.eattr e = a.eattr e) := by
+  obtain ⟨h1, h2, h3, h4, h5⟩ := toHypergraph_spec a hw
+  exact ⟨toHypergraph a, rfl, h2, h1, h3, h4, h5⟩
+
+/-- `Hypergraph(DH)` for a DiHypergraph: same node list, every edge keeps its ID and its member set is
+    tail ∪ head; all attributes kept -/
+theorem ofClass_members_hg_directed (a : ADiNet) (hw : ADWF a) :
+    ∃ r, ofClass (.inr a) .hg = .ok (.inl r) ∧ r.cls = .hg ∧ r.net.nodes = a.net.nodes ∧
+      r.net.edges = a.net.edges.map (fun p => (p.1, union p.2.1 p.2.2)) ∧
+      (∀ (t hd : List PyId) (x : PyId), x ∈ union t hd ↔ x ∈ t ∨ x ∈ hd) ∧
+      r.gattr = a.gattr ∧ (∀ n ∈ a.net.nodes, r.nattr n = a.nattr n) ∧ (∀ e ∈ dEdgeIds a.net, r.eattr e = a.eattr e) := by
+  obtain ⟨h1, h2, h3, h4, h5⟩ := toHypergraph_spec (a.flat .hg) (awf_flat hw .hg)
+  refine ⟨toHypergraph (a.flat .hg), rfl, h2, by rw [h1]; rfl, by rw [h1]; rfl, mem_union, h3, h4, ?_⟩
+  intro e he
+  apply h5
+  simpa [ADiNet.flat, dFlat, Net.edgeIds, dEdgeIds, List.map_map] using he
+
+/-- `DiHypergraph(DH)`: same node list, same `(ID, tail, head)` list, all attributes -/
+theorem ofClass_members_dhg (a : ADiNet) (hw : ADWF a) :
+    ∃ r, ofClass (.inr a) .dhg = .ok (.inr r) ∧ r.net.nodes = a.net.nodes ∧ r.net.edges = a.net.edges ∧
+      r.gattr = a.gattr ∧ (∀ n ∈ a.net.nodes, r.nattr n = a.nattr n) ∧ (∀ e ∈ dEdgeIds a.net, r.eattr e = a.eattr e) :=
+  ⟨toDiHypergraph a, rfl, toDiHypergraph_spec a hw⟩
+
+/-- no conversion from an undirected network to a directed one is offered (`XGIError`) -/
+theorem ofClass_dhg_of_undirected (a : ANet) : ofClass (.inl a) .dhg = .error .lib := rfl
+
+/-- `SimplicialComplex(N)` for a Hypergraph / SimplicialComplex `N` (network attributes copied — proposed fix):
+    same node list, node and network attributes; every non-empty source edge's member set is a simplex; the
+    result is closed under faces (≥ 2 nodes); every simplex is a source edge with its ID, members and attributes,
+    or an attribute-less proper face of one -/
+theorem ofClass_members_sc (a : ANet) (hw : AWF a) :
+    ∃ r, ofClass (.inl a) .sc = .ok (.inl r) ∧ r.cls = .sc ∧ r.net.nodes = a.net.nodes ∧ r.gattr = a.gattr ∧
+      (∀ n ∈ a.net.nodes, r.nattr n = a.nattr n) ∧
+      (∀ p ∈ a.net.edges, p.2 ≠ [] → hasSimplex r.net.edges p.2 = true) ∧
+      (∀ q ∈ r.net.edges, ∀ f : List PyId, f.Sublist q.2 → 2 ≤ f.length → hasSimplex r.net.edges f = true) ∧
+      (∀ q ∈ r.net.edges, (q ∈ a.net.edges ∧ r.eattr q.1 = a.eattr q.1) ∨
+        (r.eattr q.1 = [] ∧ ∃ p ∈ a.net.edges, q.2 ∈ subfaces p.2)) :=
+  ⟨toSimplicialComplex a, rfl, toSimplicialComplex_spec a hw⟩
+
+/-- `SimplicialComplex(DH)` for a DiHypergraph (accepted — proposed fix): as above with every source edge's
+    member set tail ∪ head -/
+theorem ofClass_members_sc_directed (a : ADiNet) (hw : ADWF a) :
+    ∃ r, ofClass (.inr a) .sc = .ok (.inl r) ∧ r.cls = .sc ∧ r.net.nodes = a.net.nodes ∧ r.gattr = a.gattr ∧
+      (∀ n ∈ a.net.nodes, r.nattr n = a.nattr n) ∧
+      (∀ p ∈ a.net.edges, union p.2.1 p.2.2 ≠ [] → hasSimplex r.net.edges (union p.2.1 p.2.2) = true) ∧
+      (∀ q ∈ r.net.edges, ∀ f : List PyId, f.Sublist q.2 → 2 ≤ f.length → hasSimplex r.net.edges f = true) ∧
+      (∀ q ∈ r.net.edges, (∃ p ∈ a.net.edges, q = (p.1, union p.2.1 p.2.2) ∧ r.eattr q.1 = a.eattr p.1) ∨
+        (r.eattr q.1 = [] ∧ ∃ p ∈ a.net.edges, q.2 ∈ subfaces (union p.2.1 p.2.2))) := by
+  obtain ⟨h1, h2, h3, h4, h5, h6, h7⟩ := toSimplicialComplex_spec (a.flat .hg) (awf_flat hw .hg)
+  refine ⟨toSimplicialComplex (a.flat .hg), rfl, h1, h2, h3, h4, ?_, h6, ?_⟩
+  · intro p hp hne
+    exact h5 (p.1, union p.2.1 p.2.2) (by simp only [ADiNet.flat, dFlat, List.mem_map]; exact ⟨p, hp, rfl⟩) hne
+  · intro q hq
+    rcases h7 q hq with ⟨h, ha⟩ | ⟨ha, p, hp, hf⟩
+    · left
+      simp only [ADiNet.flat, dFlat, List.mem_map] at h
+      obtain ⟨p, hp, rfl⟩ := h
+      exact ⟨p, hp, rfl, ha⟩
+    · right
+      simp only [ADiNet.flat, dFlat, List.mem_map] at hp
+      obtain ⟨p', hp', rfl⟩ := hp
+      exact ⟨ha, p', hp', hf⟩
+
+/-- HIF for a simplicial complex (`network-type: asc`; finishes with `SimplicialComplex(H)`, network attributes
+    copied — proposed fix): the class, the node set, the node and network attributes are kept; every source
+    simplex is a simplex of the result; the result is closed; every simplex of the result lies inside a source
+    simplex -/
+theorem hif_rt_sc (a : ANet) (hw : AWF a) (hc : a.cls = .sc) :
+    ∃ r, fromHif (toHif a) = .inl r ∧ r.cls = .sc ∧ (∀ n, n ∈ r.net.nodes ↔ n ∈ a.net.nodes) ∧ r.gattr = a.gattr ∧
+      (∀ n ∈ a.net.nodes, r.nattr n = a.nattr n) ∧
+      (∀ p ∈ a.net.edges, p.2 ≠ [] → hasSimplex r.net.edges p.2 = true) ∧
+      (∀ q ∈ r.net.edges, ∀ f : List PyId, f.Sublist q.2 → 2 ≤ f.length → hasSimplex r.net.edges f = true) ∧
+      (∀ q ∈ r.net.edges, ∃ p ∈ a.net.edges, ∀ x ∈ q.2, x ∈ p.2) := by
+  obtain ⟨r1, r2, r3, r4, r5, r6, r7, _⟩ := hif_rt a hw
+  have hw' : AWF (fromHifU (toHif a)) := by
+    refine ⟨r7, by rw [r4]; exact hw.g, fun n hn => ?_, fun e he => ?_⟩
+    · rw [r5 n ((r1 n).mp hn)]; exact hw.n n ((r1 n).mp hn)
+    · rw [r6 e ((r2 e).mp he)]; exact hw.e e ((r2 e).mp he)
+  obtain ⟨t1, t2, t3, t4, t5, t6, t7⟩ := toSimplicialComplex_spec _ hw'
+  -- an edge of the intermediate hypergraph has the members of the source edge with the same ID
+  have hsame : ∀ p' ∈ (fromHifU (toHif a)).net.edges, ∃ p ∈ a.net.edges, p.1 = p'.1 ∧ ∀ x, x ∈ p'.2 ↔ x ∈ p.2 := by
+    intro p' hp'
+    have : p'.1 ∈ a.net.edgeIds := (r2 _).mp (by unfold Net.edgeIds; rw [List.mem_map]; exact ⟨p', hp', rfl⟩)
+    unfold Net.edgeIds at this; rw [List.mem_map] at this
+    obtain ⟨p, hp, hpe⟩ := this
+    refine ⟨p, hp, hpe, fun x => ?_⟩
+    rw [← inc_iff_of_wf r7 hp', ← inc_iff_of_wf hw.net hp, hpe]
+    exact r3 x p'.1
+  refine ⟨toSimplicialComplex (fromHifU (toHif a)), by unfold fromHif; simp [toHif, hc], t1, ?_, by rw [t3, r4], ?_, ?_, t6, ?_⟩
+  · intro n; rw [t2]; exact r1 n
+  · intro n hn; rw [t4 n ((r1 n).mpr hn)]; exact r5 n hn
+  · intro p hp hne
+    have : p.1 ∈ (fromHifU (toHif a)).net.edgeIds := (r2 _).mpr (by unfold Net.edgeIds; rw [List.mem_map]; exact ⟨p, hp, rfl⟩)
+    unfold Net.edgeIds at this; rw [List.mem_map] at this
+    obtain ⟨p', hp', hpe⟩ := this
+    have hmem : ∀ x, x ∈ p'.2 ↔ x ∈ p.2 := by
+      intro x
+      rw [← inc_iff_of_wf r7 hp', ← inc_iff_of_wf hw.net hp, hpe]
+      exact r3 x p.1
+    have hne' : p'.2 ≠ [] := by
+      intro h
+      cases hm : p.2 with
+      | nil => exact hne hm
+      | cons x t =>
+        have : x ∈ p'.2 := (hmem x).mpr (by rw [hm]; simp)
+        rw [h] at this; simp at this
+    exact hasSimplex_congr _ hmem (t5 p' hp' hne')
+  · intro q hq
+    rcases t7 q hq with ⟨h, _⟩ | ⟨_, p', hp', hf⟩
+    · obtain ⟨p, hp, _, hm⟩ := hsame q h
+      exact ⟨p, hp, fun x hx => (hm x).mp hx⟩
+    · obtain ⟨p, hp, _, hm⟩ := hsame p' hp'
+      rw [mem_subfaces] at hf
+      exact ⟨p, hp, fun x hx => (hm x).mp (hf.1.subset hx)⟩
 
 end Xgi.C10
